@@ -86,6 +86,38 @@ func numberFormatRule(p *core.Program, r *core.Report, rule string, entry *ssa.F
 		src = ta
 	}
 	bad := ""
+	// the value formatted is the ordinate itself: not a merge with a constant, not the result of arithmetic
+	// ("values that round to zero are written as 0" replaces the number before the formatter sees it)
+	var adjusted func(v ssa.Value, depth int) string
+	adjusted = func(v ssa.Value, depth int) string {
+		if depth > 4 {
+			return ""
+		}
+		switch x := eng.Strip(v).(type) {
+		case *ssa.Phi:
+			for _, e := range x.Edges {
+				if e == ssa.Value(x) {
+					continue
+				}
+				if _, isC := eng.Strip(e).(*ssa.Const); isC {
+					return "the formatted value is a merge of the ordinate with the constant " + e.String() + ": some ordinates are replaced before they are formatted"
+				}
+				if why := adjusted(e, depth+1); why != "" {
+					return why
+				}
+			}
+		case *ssa.BinOp:
+			return "the formatted value is computed (" + x.String() + "), not the ordinate as stored"
+		case *ssa.Call:
+			if o := eng.CalleeObj(x); o != nil && o.Pkg() != nil && o.Pkg().Path() == "math" {
+				return "the formatted value is math." + o.Name() + "(...) of the ordinate, not the ordinate as stored"
+			}
+		}
+		return ""
+	}
+	if why := adjusted(x, 0); why != "" {
+		bad = why + ": the text no longer is the shortest decimal of the stored number (or its rounding to the requested digits)"
+	}
 	for _, rf := range eng.Referrers(src) {
 		switch u := rf.(type) {
 		case *ssa.DebugRef:
